@@ -16,7 +16,7 @@ use std::time::Duration;
 use uuid::Uuid;
 use vharness::libwallet::mwixnet::MixnetReqCreationParams;
 use vharness::libwallet::{
-	InitTxArgs, IssueInvoiceTxArgs, OutputStatus, PaymentProof, Slate, SlateState, SlatepackAddress,
+	StatusMessage, InitTxArgs, IssueInvoiceTxArgs, OutputStatus, PaymentProof, Slate, SlateState, SlatepackAddress,
 	TxLogEntryType,
 };
 use vharness::node::DirectNode;
@@ -372,12 +372,46 @@ pub fn do_call(
 			fin(&o, |_| Value::Null)
 		}
 		"start_updater" => {
-			let o = guarded(|| api.start_updater(tok, Duration::from_millis(10)));
-			// let the updater thread run a few cycles, stop it, let it finish its last cycle
-			std::thread::sleep(Duration::from_millis(70));
-			let _ = api.stop_updater();
-			std::thread::sleep(Duration::from_millis(70));
-			fin(&o, |_| Value::Null)
+			// An Owner of its own with OUR status channel (Owner::new's custom_channel): the updater
+			// thread owns the only other sender, so the channel disconnects exactly when that thread
+			// has ended - a join without a handle.  Observing the store while the thread still runs
+			// would make the before/after digests of this and of the next call race with it.
+			let (tx, rx) = std::sync::mpsc::channel::<StatusMessage>();
+			let own: Api = grin_wallet_api::Owner::new(w.inst("w1"), Some(tx));
+			let o = guarded(|| own.start_updater(tok, Duration::from_millis(10)));
+			let running = own.updater_running.clone();
+			drop(own);
+			// let it complete one full cycle (the second "updating outputs" message opens the next
+			// cycle); a thread that died (wrong token) or idles (closed wallet) is not waited for
+			let t0 = std::time::Instant::now();
+			let (mut cycles, mut alive) = (0, true);
+			while alive && cycles < 2 && t0.elapsed() < Duration::from_millis(if cycles == 0 { 300 } else { 5000 }) {
+				match rx.recv_timeout(Duration::from_millis(20)) {
+					Ok(StatusMessage::UpdatingOutputs(_)) => cycles += 1,
+					Ok(_) => {}
+					Err(std::sync::mpsc::RecvTimeoutError::Timeout) => {}
+					Err(std::sync::mpsc::RecvTimeoutError::Disconnected) => alive = false,
+				}
+			}
+			// stop_updater is `updater_running.store(false)`; repeated because the thread sets the flag
+			// itself when it starts
+			let mut hung = false;
+			while alive {
+				running.store(false, std::sync::atomic::Ordering::Relaxed);
+				match rx.recv_timeout(Duration::from_millis(10)) {
+					Err(std::sync::mpsc::RecvTimeoutError::Disconnected) => alive = false,
+					_ => {}
+				}
+				if t0.elapsed() > Duration::from_secs(30) {
+					hung = true;
+					break;
+				}
+			}
+			if hung {
+				("hang".into(), Value::Null, "updater thread did not end".into())
+			} else {
+				fin(&o, |_| Value::Null)
+			}
 		}
 		"stop_updater" => {
 			let o = guarded(|| api.stop_updater());
